@@ -980,7 +980,8 @@ class EnhancedRetransmissionProcessor(Processor):
         self._num_receiver_ready_polls_sent += 1
         self._send_s_frame(
             supervision_function=SupervisoryEnhancedControlField.SupervisoryFunction.RR,
-            final=1,
+            final=0,
+            poll=1,
         )
 
     def _get_next_tx_seq(self) -> int:
@@ -1101,10 +1102,12 @@ class EnhancedRetransmissionProcessor(Processor):
         self,
         supervision_function: SupervisoryEnhancedControlField.SupervisoryFunction,
         final: int,
+        poll: int = 0,
     ) -> None:
         self.channel.send_pdu(
             SupervisoryEnhancedControlField(
                 supervision_function=supervision_function,
+                poll=poll,
                 final=final,
                 req_seq=self._req_seq_num,
             )
